@@ -198,15 +198,23 @@ Fixpoint digits_to_N (ds : str) (acc : N) : N :=
 Fixpoint strip_leading_zeros (ds : str) : str :=
   match ds with 48 :: r => strip_leading_zeros r | _ => ds end.
 
+(* an optional leading sign: (negative?, what follows) *)
+Definition split_sign (s : str) : bool * str :=
+  match s with
+  | c :: r => if c =? 43 then (false, r) else if c =? 45 then (true, r) else (false, s)
+  | [] => (false, s)
+  end.
+(* the fraction digits after a dot, if there is one *)
+Definition after_dot (r1 : str) : str * str :=
+  match r1 with
+  | c :: r => if c =? 46 then take_digits r else ([], r1)
+  | [] => ([], r1)
+  end.
+
 (* mantissa digits (integer part ++ fraction), decimal exponent *)
 Definition parse_number (s : str) : option (str * Z) :=
   let '(ip, r1) := take_digits s in
-  let '(fp, r2) :=
-    match r1 with
-    | 46 :: r => take_digits r
-    | _ => ([], r1)
-    end in
-  let had_dot := match r1 with 46 :: _ => true | _ => false end in
+  let '(fp, r2) := after_dot r1 in
   match ip, fp with
   | [], [] => None
   | _, _ =>
@@ -215,7 +223,7 @@ Definition parse_number (s : str) : option (str * Z) :=
     | [] => Some (ip ++ fp, (- frac_len)%Z)
     | e :: r3 =>
       if (e =? 101) || (e =? 69) then
-        let '(eneg, r4) := match r3 with 43 :: r => (false, r) | 45 :: r => (true, r) | _ => (false, r3) end in
+        let '(eneg, r4) := split_sign r3 in
         let '(ed, r5) := take_digits r4 in
         match ed, r5 with
         | _ :: _, [] =>
@@ -250,7 +258,7 @@ Definition s_nan : str := [110; 97; 110].
 
 (* <fN as FromStr>::from_str : class of the result, None = Err *)
 Definition rust_float_class (thr : N) (t : str) : option fclass :=
-  let '(neg, r) := match t with 43 :: r => (false, r) | 45 :: r => (true, r) | _ => (false, t) end in
+  let '(neg, r) := split_sign t in
   if eq_ignore_ascii_case r s_inf || eq_ignore_ascii_case r s_infinity then Some (FInf neg)
   else if eq_ignore_ascii_case r s_nan then Some FNan
   else match parse_number r with
